@@ -180,9 +180,14 @@ type accountsTable struct {
 	err     error
 	// activeFrom: activation epoch of validators that are not active from the start (absent: always active)
 	activeFrom map[phase0.ValidatorIndex]phase0.Epoch
+	// knownFrom: virtual instant from which the account manager knows the account (absent: from the start)
+	knownFrom map[phase0.ValidatorIndex]int64
 }
 
 func (t *accountsTable) active(i phase0.ValidatorIndex, e phase0.Epoch) bool {
+	if at, ok := t.knownFrom[i]; ok && mc.Now() < at {
+		return false
+	}
 	from, ok := t.activeFrom[i]
 	return !ok || e >= from
 }
